@@ -227,12 +227,17 @@ class Interp:
 
     def block(self, stmts):
         mat = None
-        dvr = None          # None | ("rotate",) | ("diag", k) | ("inherit", set of kinds)
-        inherited = []
+        dvr = None          # None | ("rotate",) | ("diag", k)
+        inherited = []      # dvr kinds of the self.op_mat(...) terms used so far
+        pre_rotate = None   # kinds of the terms that the rotation statement acts on
         for s in stmts:
             txt = ast.unparse(s)
-            if txt == DVR_ROTATE:
+            if txt == _canon(DVR_ROTATE):
+                if dvr is not None or mat is None:
+                    raise TranslateError("second / misplaced dvr rotation")
                 dvr = ("rotate",)
+                pre_rotate = list(inherited)
+                inherited = []
                 continue
             if isinstance(s, ast.If):
                 t = ast.unparse(s.test)
@@ -266,6 +271,10 @@ class Interp:
             mat = sub
         if mat is None:
             raise TranslateError("branch assigns no matrix")
+        if dvr == ("rotate",):
+            # the rotated part must have been in the plain frame, everything added afterwards in the DVR frame
+            if any(k != ("none",) for k in pre_rotate) or any(k != ("rotate",) for k in inherited):
+                dvr = ("mixed",)
         if dvr is None:
             kinds = set(inherited)
             if not kinds:
@@ -279,6 +288,7 @@ class Interp:
     def block_inner(self, stmts, mat):
         inherited = []
         for s in stmts:
+            self.cur_mat = mat
             if isinstance(s, ast.Assign) and len(s.targets) == 1 and isinstance(s.targets[0], ast.Name) and s.targets[0].id == "mat":
                 kind, val = self.expr(s.value, inherited)
                 if kind != "M":
@@ -310,6 +320,10 @@ class Interp:
                     raise TranslateError("complex constant %r" % v)
                 return "S", s_mul(s_const(Fraction(repr(v.imag))), {(0, 0, 1, 0): Fraction(1)})
             raise TranslateError("constant %r" % (v,))
+        if isinstance(n, ast.Name) and n.id == "mat":
+            if getattr(self, "cur_mat", None) is None:
+                raise TranslateError("mat used before assignment")
+            return "M", {k: dict(v) for k, v in self.cur_mat.items()}
         if isinstance(n, ast.Attribute) and isinstance(n.value, ast.Name) and n.value.id == "self":
             if n.attr == "omega":
                 return "S", {(2, 0, 0, 0): Fraction(1)}
